@@ -6,6 +6,7 @@ import (
 	"fmt"
 	"os"
 	"path/filepath"
+	"strconv"
 	"strings"
 	"sync"
 	"sync/atomic"
@@ -32,38 +33,54 @@ func verifSysctl(t *testing.T, r *vfh.Rand, out *vfh.Out) {
 		t.Logf("sysctl glue not run: cannot redirect %q", sysctl(iface, "autoconf"))
 		return
 	}
-	contents := map[int]string{0: "0\n", 1: "1\n", 2: "1"}
-	other := []string{"1", "0", "", "2\n", "1\n\n", " 1\n", "true\n", "01\n"}
-	put := func(key string, c int, alt string) {
+	// content codes: -1 missing, 0 "0\n", 1 "1\n" (what the kernel renders for 0 and 1), and for
+	// anything else: 2 not an integer, 3 another rendering of a non-zero integer ("2\n": the
+	// kernel keeps whatever integer is written to `forwarding` and forwards for any non-zero
+	// value), 4 another rendering of zero
+	contents := map[int]string{0: "0\n", 1: "1\n"}
+	other := []string{"1", "0", "", "2\n", "1\n\n", " 1\n", "true\n", "01\n", "-1\n", "00\n", "1 1\n"}
+	classify := func(s string) int {
+		switch s {
+		case "0\n":
+			return 0
+		case "1\n":
+			return 1
+		}
+		v, err := strconv.Atoi(strings.TrimSpace(s))
+		switch {
+		case err != nil:
+			return 2
+		case v != 0:
+			return 3
+		}
+		return 4
+	}
+	put := func(key string, c int, alt string) int {
 		p := filepath.Join(dir, key)
 		if c < 0 {
 			os.Remove(p)
-			return
+			return -1
 		}
 		s := contents[c]
-		if c == 2 {
+		if c >= 2 {
 			s = alt
 		}
 		if err := os.WriteFile(p, []byte(s), 0o644); err != nil {
 			t.Fatal(err)
 		}
+		return classify(s)
 	}
 	code := func(key string) int {
 		b, err := os.ReadFile(filepath.Join(dir, key))
-		switch {
-		case err != nil:
+		if err != nil {
 			return -1
-		case string(b) == "0\n":
-			return 0
-		case string(b) == "1\n":
-			return 1
 		}
-		return 2
+		return classify(string(b))
 	}
 	st := NewState()
 	run := func(a, f int, alt string, ops []string) {
-		put("autoconf", a, alt)
-		put("forwarding", f, alt)
+		a = put("autoconf", a, alt)
+		f = put("forwarding", f, alt)
 		c := new(vfh.Toks).S("sc").I(int64(a)).I(int64(f)).N(len(ops))
 		impl := new(vfh.Toks)
 		res := func(b bool, err error) {
@@ -100,7 +117,7 @@ func verifSysctl(t *testing.T, r *vfh.Rand, out *vfh.Out) {
 	// every pair of contents x every op sequence of length <= 3
 	for a := -1; a <= 2; a++ {
 		for f := -1; f <= 2; f++ {
-			for _, alt := range other[:2] {
+			for _, alt := range other[:4] {
 				if a != 2 && f != 2 && alt != other[0] {
 					continue
 				}
